@@ -14,12 +14,14 @@ func init() {
 	register(&Checker{
 		ID: "C04",
 		Explanation: "Structural necessary conditions of C04: (deact.state) the all-checks-pass exit of the deactivate applier is the terminal state (empty document, both commitments empty, Deactivated=true) and every failing check is an error; (stop) in Resolve no path leads from the recover/deactivate phase to the update phase without crossing the Deactivated=false edge of the resulting state; (intake) every success path of the default operation decorator is either a create or has resolved the DID and crossed the Deactivated=false edge, and every store/queue effect of ProcessOperation is dominated by the nil-error edges of Parse, validateOperation and Decorate; (recover.fresh) recover applies patches to a fresh document and takes both commitments from the operation (effect rows); (after.full) the predicate that selects updates after the last full operation is executed over all weak orderings of its inputs and equals 'unpublished ∨ (time, number) >lex (lastTime, lastNumber)' — strictly after; the coordinates it is called with come from the state produced by the full phase and the appliers stamp those coordinates from the anchored operation (provenance cells). " +
+			"(less) the chronological comparator of the processor is a strict weak order equal to lexicographic (time, number) — a later recover must not be ordered before the deactivate it competes with; " +
 			"Not decided: the claim over arbitrary extensions of a history as a metamorphic fact; custom decorators.",
 		Run: runC04,
 	})
 	register(&Checker{
 		ID: "C06",
 		Explanation: "Structural necessary conditions of C06: (filter.flow) the only operation slice that reaches splitting and applying in Resolve is the third result of processOperations, which forwards applyResolutionOptions' results, whose third result is on every success return either the result of filterOps or the unfiltered slice under the fact len(filtered)=len(all); (filter.time) filterOpsByVersionTime appends an element only under TransactionTime ≤ T with T derived from time.Parse(RFC3339, option), returns an error when nothing was kept, and does not convert a possibly negative Unix time to unsigned without a sign guard; (filter.id) filterOpsByVersionID returns exactly the prefix slice through the first element whose CanonicalReference equals V and an error when no element matches; (sorted.before.filter) both chronological sorts dominate the filter (shared with C02, incl. the comparator tables); (rest) the REST handler forwards the versionId/versionTime query values unmodified. " +
+			"(version.handler) DocumentHandler.ResolveDocument and resolveRequestWithID pass the resolution options unchanged to the processor; (version.blind) resolution from the long-form initial state, which ignores versionId/versionTime and is selected by a substring of the processor's error text, is reachable only under VersionID = \"\" ∧ VersionTime = \"\"; " +
 			"Not decided: the metamorphic equality itself; time.Parse.",
 		Run: runC06,
 	})
